@@ -29,6 +29,7 @@ type certChain struct {
 	n      *sim.FNode
 	height uint64 // next nested-chain height to certify
 	orders [][]byte
+	phase  lib.Phase // phase of the certificates build() signs (the commit phase unless a forgery is being built)
 }
 
 func certGenesis(r *sim.Rng) *fsm.GenesisState {
@@ -57,7 +58,7 @@ func newCertChain(g *fsm.GenesisState) *certChain {
 	if err != nil {
 		panic(err)
 	}
-	return &certChain{n: n, height: 1}
+	return &certChain{n: n, height: 1, phase: lib.Phase_PRECOMMIT_VOTE}
 }
 
 // certTx builds one signed certificate-results transaction against the node's current state
@@ -135,7 +136,15 @@ func (c *certChain) certTx(r *sim.Rng) (txBytes []byte, meta map[string]any, non
 		skip = 1 + r.Intn(len(members)-1)
 	}
 	meta["non_signer"] = skip >= 0
+	// sometimes the certificate is not a commit certificate: the committee's ELECTION_VOTE (which signs the view and the
+	// proposer only) or PROPOSE_VOTE aggregate under results of the proposer's choosing. Only the commit certificate carries results
+	if r.Chance(12) {
+		c.phase = []lib.Phase{lib.Phase_ELECTION_VOTE, lib.Phase_PROPOSE_VOTE, lib.Phase_UNKNOWN}[r.Intn(3)]
+		meta["forged_phase"] = c.phase.String()
+		skip = -1
+	}
 	bz, ns := c.build(r, results, qcHeight, skip)
+	c.phase = lib.Phase_PRECOMMIT_VOTE
 	if bz == nil {
 		return nil, nil, nil
 	}
@@ -157,7 +166,7 @@ func (c *certChain) build(r *sim.Rng, results *lib.CertificateResult, qcHeight u
 		results.RewardRecipients = &lib.RewardRecipients{PaymentPercents: []*lib.PaymentPercents{{Address: sim.BLSKey(0).Addr, Percent: 100, ChainId: nested}}}
 	}
 	qc := &lib.QuorumCertificate{
-		Header:      &lib.View{Height: qcHeight, NetworkId: uint64(n.Config.NetworkID), RootHeight: root, ChainId: nested},
+		Header:      &lib.View{Height: qcHeight, NetworkId: uint64(n.Config.NetworkID), RootHeight: root, ChainId: nested, Phase: c.phase},
 		Results:     results,
 		ResultsHash: results.Hash(),
 		BlockHash:   crypto.Hash([]byte(fmt.Sprintf("nested-block-%d", qcHeight))),
@@ -270,6 +279,13 @@ func Run(r *sim.Rng, nChains, perChain int, outDir string, wCert *sim.CaseWriter
 				panic(e)
 			}
 			meta["ok"] = okTx
+			if fp, forged := meta["forged_phase"]; forged && okTx {
+				sim.Direct(outDir, map[string]any{"finding": "non-commit-certificate-accepted-as-results", "kind": "a certificate-results transaction whose certificate is not in the commit phase changed the state",
+					"phase": fp})
+			}
+			if _, forged := meta["forged_phase"]; forged {
+				count("certificate-results:forged-phase")
+			}
 			if !okTx && len(res.Failed) == 1 {
 				meta["error"] = res.Failed[0].Error.Error()
 			}
